@@ -294,8 +294,130 @@ class StripAnn(ast.NodeTransformer):
         return node
 
 
+class TernaryToIf(ast.NodeTransformer):
+    """`x = a if c else b`  ->  `if c: x = a` / `else: x = b` (simple name targets)."""
+
+    def visit_Assign(self, node):
+        if len(node.targets) == 1 and isinstance(node.targets[0], ast.Name) \
+                and isinstance(node.value, ast.IfExp):
+            v = node.value
+            return ast.If(test=v.test,
+                          body=[ast.Assign(targets=node.targets, value=v.body)],
+                          orelse=[ast.Assign(targets=node.targets, value=v.orelse)])
+        return node
+
+
+class DeMorgan(ast.NodeTransformer):
+    """`not (a and b)` -> `(not a) or (not b)` and dually."""
+
+    def visit_UnaryOp(self, node):
+        self.generic_visit(node)
+        if isinstance(node.op, ast.Not) and isinstance(node.operand, ast.BoolOp):
+            op = ast.Or() if isinstance(node.operand.op, ast.And) else ast.And()
+            return ast.BoolOp(op=op, values=[ast.UnaryOp(op=ast.Not(), operand=v)
+                                             for v in node.operand.values])
+        return node
+
+
+class ChainSplit(ast.NodeTransformer):
+    """`a < b < c` -> `a < b and b < c` when b is a name or constant."""
+
+    def visit_Compare(self, node):
+        self.generic_visit(node)
+        if len(node.ops) == 2 and isinstance(node.comparators[0], (ast.Name, ast.Constant)):
+            mid = node.comparators[0]
+            return ast.BoolOp(op=ast.And(), values=[
+                ast.Compare(left=node.left, ops=[node.ops[0]], comparators=[mid]),
+                ast.Compare(left=mid, ops=[node.ops[1]], comparators=[node.comparators[1]])])
+        return node
+
+
+def _pure_expr(e):
+    return not any(isinstance(x, (ast.Call, ast.Await, ast.Yield, ast.YieldFrom, ast.NamedExpr,
+                                  ast.Subscript))
+                   for x in ast.walk(e))
+
+
+class SwapIndep(ast.NodeTransformer):
+    """swap two adjacent assignments to different local names whose right-hand sides are
+    call-free and do not read each other's target."""
+
+    def _swap(self, body):
+        out, i = [], 0
+        while i < len(body):
+            a = body[i]
+            b = body[i + 1] if i + 1 < len(body) else None
+            if (isinstance(a, ast.Assign) and isinstance(b, ast.Assign)
+                    and len(a.targets) == 1 and len(b.targets) == 1
+                    and isinstance(a.targets[0], ast.Name) and isinstance(b.targets[0], ast.Name)
+                    and a.targets[0].id != b.targets[0].id
+                    and _pure_expr(a.value) and _pure_expr(b.value)
+                    and a.targets[0].id not in {x.id for x in ast.walk(b.value)
+                                                if isinstance(x, ast.Name)}
+                    and b.targets[0].id not in {x.id for x in ast.walk(a.value)
+                                                if isinstance(x, ast.Name)}):
+                out += [b, a]
+                i += 2
+            else:
+                out.append(a)
+                i += 1
+        return out
+
+    def generic_visit(self, node):
+        super().generic_visit(node)
+        for f in ("body", "orelse", "finalbody"):
+            v = getattr(node, f, None)
+            if isinstance(v, list) and v and isinstance(v[0], ast.stmt):
+                setattr(node, f, self._swap(v))
+        return node
+
+
+class LambdaToDef(ast.NodeTransformer):
+    """`f = lambda a, b: e`  ->  `def f(a, b): return e` (plain statements in functions)."""
+
+    def visit_Assign(self, node):
+        if len(node.targets) == 1 and isinstance(node.targets[0], ast.Name) \
+                and isinstance(node.value, ast.Lambda):
+            lam = node.value
+            return ast.FunctionDef(name=node.targets[0].id, args=lam.args,
+                                   body=[ast.Return(value=lam.body)], decorator_list=[],
+                                   returns=None, type_comment=None, type_params=[])
+        return node
+
+
+class CompToLoop(ast.NodeTransformer):
+    """`x = [e for a in it if c]` -> `x = []` / `for a in it: if c: x.append(e)` (single
+    generator, name target, statement level in a function body)."""
+
+    def visit_FunctionDef(self, node):
+        self.generic_visit(node)
+
+        def conv(st):
+            if isinstance(st, ast.Assign) and len(st.targets) == 1 \
+                    and isinstance(st.targets[0], ast.Name) \
+                    and isinstance(st.value, ast.ListComp) and len(st.value.generators) == 1 \
+                    and not st.value.generators[0].is_async:
+                g = st.value.generators[0]
+                tgt = st.targets[0].id
+                used = {x.id for x in ast.walk(st.value) if isinstance(x, ast.Name)}
+                if tgt in used:
+                    return [st]
+                app = ast.Expr(ast.Call(func=ast.Attribute(value=ast.Name(id=tgt, ctx=ast.Load()),
+                                                           attr="append", ctx=ast.Load()),
+                                        args=[st.value.elt], keywords=[]))
+                inner = [app]
+                for cnd in reversed(g.ifs):
+                    inner = [ast.If(test=cnd, body=inner, orelse=[])]
+                return [ast.Assign(targets=st.targets, value=ast.List(elts=[], ctx=ast.Load())),
+                        ast.For(target=g.target, iter=g.iter, body=inner, orelse=[])]
+            return [st]
+        node.body = [x for st in node.body for x in conv(st)]
+        return node
+
+
 TRANSFORMS = ["inline_calls", "strip_ann", "ret_tmp", "if_swap", "cmp_flip", "rename", "kwargs", "assign_tmp",
-              "unpack_index", "and_split"]
+              "unpack_index", "and_split", "ternary_if", "demorgan", "chain_split", "swap_indep",
+              "lambda_def", "comp_loop"]
 
 
 def apply(name, repo, root):
@@ -303,7 +425,9 @@ def apply(name, repo, root):
         tree = ast.parse(mi.source)
         t = {"ret_tmp": RetTmp, "if_swap": IfSwap, "cmp_flip": CmpFlip, "rename": Rename,
              "assign_tmp": AssignTmp, "unpack_index": UnpackIndex,
-             "and_split": AndSplit, "strip_ann": StripAnn}.get(name)
+             "and_split": AndSplit, "strip_ann": StripAnn, "ternary_if": TernaryToIf,
+             "demorgan": DeMorgan, "chain_split": ChainSplit, "swap_indep": SwapIndep,
+             "lambda_def": LambdaToDef, "comp_loop": CompToLoop}.get(name)
         tree = (Kwargs(repo, mi) if name == "kwargs" else InlineStmtCalls(repo, mi)
                 if name == "inline_calls" else t()).visit(tree)
         ast.fix_missing_locations(tree)
